@@ -3,7 +3,7 @@ from ..engine import analyze_fn, program
 from ..terms import T, pp
 from .. import prov
 from ..prov import norm, show, P, F_, C
-from ..hashrules import soundness, sysv_hash_form, fact_norms, wh
+from ..hashrules import soundness, sysv_hash_form, fact_norms, wh, walk_exits, counter_phi, range_of_next
 
 LEVEL = "other"
 EXPLANATION = (
@@ -29,20 +29,44 @@ def run(ctx, rep):
         first = ("payload", ("call", "parse::ParsingTable::get", (F_(me, "buckets"), ("Rem", hashv, nb))), "Ok")
         # index accumulator: header phi with entry = bucket value, back edge = chains.get(index)
         found = False
+        idx_phis = []
         for ph, ops in an.phi_ops.items():
             if ph.args[0][1] not in an.loops:
                 continue
             body = an.loops[ph.args[0][1]]
             ent = [norm(v) for p, v in ops.items() if p not in body]
             bk = [norm(v) for p, v in ops.items() if p in body]
-            if ent == [first] and bk == [("payload", ("call", "parse::ParsingTable::get", (F_(me, "chains"), norm(ph))), "Ok")]:
+            if ent == [first] and bk and set(bk) == {("payload", ("call", "parse::ParsingTable::get", (F_(me, "chains"), norm(ph))), "Ok")}:
                 found = True
+                idx_phis.append(norm(ph))
                 # the walk continues only while index != 0
                 sw = [b for b, d in an.switches.items() if b in body and norm(d) in (("Ne",) + tuple(sorted((norm(ph), C(0)), key=repr)),
                                                                                    ("Eq",) + tuple(sorted((norm(ph), C(0)), key=repr)))]
                 rep.require(bool(sw), "linkage", "find:stop-on-zero", w, "the chain walk tests index != 0", "the chain walk does not stop on index 0 (STN_UNDEF)")
         rep.require(found, "linkage", "find:walk", w, "index starts at buckets[hash % nbucket] and follows chains[index]",
-                    "SysVHashTable::find: the chain walk is not buckets.get(sysv_hash(name) %% nbucket) followed by chains.get(index)")
+                    "SysVHashTable::find: the chain walk is not buckets.get(sysv_hash(name) % nbucket) followed by chains.get(index)")
+        # ways out of the walk: index == 0, the step counter reaching nchain, a failed read, or the match
+        nchain = ("Div", ("len", F_(F_(me, "chains"), "data")), ("call", "parse::ParseAt::size_for", (F_(F_(me, "chains"), "class"),)))
+        hdrs = list(an.loops)
+        ctrs = counter_phi(an, hdrs[0]) if len(hdrs) == 1 else []
+
+        def stop(d, val, sw):
+            if d[0] == "discr" and d[1][0] == "fresh":
+                r = range_of_next(an, sw)
+                if r is not None:
+                    if r != (C(0), nchain):
+                        return "bounds the number of steps by the range %s instead of 0..nchain" % (show(r)[:120],)
+                    return val == "0" or "leaves while the range still has entries"
+            if d[0] in ("Ne", "Eq") and C(0) in d[1:] and any(x in idx_phis for x in d[1:]):
+                return (val == "0") == (d[0] == "Ne") or "continues only while index == 0"
+            if d[0] == "Lt" and d[1] in idx_phis and d[2] == nchain:
+                return val == "0" or "leaves while the index is in range"   # an index >= nchain cannot occur in a well-formed table
+            if d[0] == "Lt" and d[1] in ctrs:
+                if d[2] != nchain:
+                    return "bounds the number of steps by %s instead of the chain count (a chain can be as long as nchain)" % show(d[2])[:120]
+                return val == "0" or "leaves while the step bound is not yet reached"
+            return None
+        walk_exits(an, rep, "linkage", "find", w, stop, "index == 0, or nchain steps taken")
         # early None exactly for empty buckets
         empties = 0
         for t, st in an.ret_leaves() or []:
